@@ -303,6 +303,10 @@ def run(repo: Repo, rep: Report, tier: str) -> None:
     from .memo import memo_rule
 
     memo_rule(repo, rep, "C05.R8")
+    from .c11 import union_encode_rule
+
+    union_encode_rule(repo, rep, "C05.R9")
+
 
 
 
